@@ -7,13 +7,13 @@
    Arc/Guard.v (the signatures of the known divergences), Arc/Sim.v (register images). *)
 From Coq Require Import ZArith List Bool.
 From Synnax Require Import Arc.Syntax Arc.Spec Arc.Wasm Arc.Compile Arc.Guard Arc.Sim Arc.FloatExec
-  Arc.CorrectExpr Arc.CorrectStmt Arc.Correct.
+  Arc.CorrectExpr Arc.CorrectStmt Arc.Correct Arc.Validates.
 Import ListNotations.
 Local Open Scope Z_scope.
 
 (* Compiler correctness, for EVERY choice of the float operations, every well-typed function of
    the fragment, every argument vector of the parameter types: if neither the program text nor
-   the (spec-level) evaluation of the call carries one of the eleven signatures of Arc/Guard.v,
+   the (spec-level) evaluation of the call carries one of the nine signatures of Arc/Guard.v,
    then the function compiles, and running the compiled body on the register images of the
    arguments returns the register image of the value spec.md defines (early returns, locals,
    conditionals, short-circuit logic, wrapping arithmetic, casts, '^' through the host import),
@@ -33,12 +33,22 @@ Theorem C19_compile_correct_partial : forall (fo : float_ops) (f : func) (args :
 Proof. exact compile_correct_partial. Qed.
 Print Assumptions C19_compile_correct_partial.
 
+(* "Every program the analyzer accepts compiles to a module that validates": every well-typed
+   function whose text carries no static signature compiles, and the emitted body type-checks
+   under the WebAssembly validation rules (operand stack typing, block types, polymorphic stack
+   after return/unreachable, a result on every path). *)
+Theorem C19_validates_partial : forall f,
+  check_func f = true -> locals_ok f = true -> static_flags f = [] ->
+  exists w, compile f = Some w /\ validate w = true.
+Proof. exact validates_partial. Qed.
+Print Assumptions C19_validates_partial.
+
 (* The same at the level of one expression, in any scope and any hint context the compiler can
    create: the emitted code pushes the register image of the specified value on any stack. *)
 Theorem C19_expr_correct_partial : forall (fo : float_ops) (tys : list ty) (sc : list nat) (e : expr)
     (hint : option ty) (t : ty),
   type_of tys sc e = Some t ->
-  hint_ok tys hint e = true -> float_mod_free tys e = true -> lits_small e = true ->
+  hint_ok tys hint e = true -> float_mod_free tys e = true ->
   exists code, cexpr tys hint e = Some (code, t) /\
     forall r ls, sim fo tys sc r ls -> dflags fo tys r e = [] ->
       esim fo t code (eval fo tys r e) ls.
@@ -71,16 +81,15 @@ Theorem C19_float_modulo_refuted :
 Proof. exact float_modulo_refuted. Qed.
 Print Assumptions C19_float_modulo_refuted.
 
-Theorem C19_if_condition_not_i32_refuted :
-  wf w_if64 = true /\ static_flags w_if64 = [TgIfCond64] /\
-  option_map fst (run_raw w_if64 (ints [1])) = Some false.
-Proof. exact if_condition_not_i32_refuted. Qed.
-Print Assumptions C19_if_condition_not_i32_refuted.
-
-Theorem C19_u64_literal_refuted :
-  wf w_biglit = true /\ static_flags w_biglit = [TgBigU64Lit] /\ compile w_biglit = None.
-Proof. exact u64_literal_refuted. Qed.
-Print Assumptions C19_u64_literal_refuted.
+(* Finding F13h, fixed in /repo: a bare 'if' on an i64 register (what the pinned compiler
+   emitted) does not validate; the fixed lowering validates and computes the condition. *)
+Theorem C19_bare_if_on_i64_refuted :
+  wf w_if64 = true /\ static_flags w_if64 = [] /\
+  validate w_if64_pinned = false /\
+  wres_z (run_raw w_if64 (ints [5])) = Some (true, inl 1) /\
+  wres_z (run_raw w_if64 (ints [0])) = Some (true, inl 2).
+Proof. exact bare_if_on_i64_refuted. Qed.
+Print Assumptions C19_bare_if_on_i64_refuted.
 
 Theorem C19_narrow_int_arith_overflow_refuted :
   wf w_narrow = true /\ static_flags w_narrow = [] /\
@@ -134,6 +143,14 @@ Print Assumptions C19_u64_pow_exponent_refuted.
    else-if, short-circuit logic and a division meets every hypothesis of
    C19_compile_correct_partial on three calls; its value is non-trivial and one call divides
    by zero (runtime error in the spec, trap in the compiled code). *)
+(* Finding F13j, fixed in /repo: a u64 literal above 2^63-1 now compiles and computes. *)
+Example C19_u64_literal_fixed :
+  wf w_biglit = true /\ static_flags w_biglit = [] /\
+  dyn_flags fo_exec w_biglit (ints [3]) = [] /\
+  spec_z w_biglit (ints [3]) = Some 2 /\
+  wres_z (run_raw w_biglit (ints [3])) = Some (true, inl 2).
+Proof. exact u64_literal_fixed. Qed.
+
 Example C19_nonvacuous :
   wf w_ok = true /\
   no_flags w_ok (ints [-7; 4000000000]) = true /\
